@@ -1,10 +1,9 @@
-(* Ties of the pruning conditions of the C20 bookkeeping model to the gotrans transcriptions of the
-   corresponding `if` conditions in the Go source (see Proofs/GenTie.v).  The model keeps a key when
-   the transcribed "stale" condition is false; keys are uint64 values and the sums do not wrap
-   (an epoch or slot within 2^64 - SLOTS_PER_EPOCH resp. 2^64 - 32 of the end of the range). *)
+(* C20: the hand-written model equals the gotrans transcription of the pruning conditions of the bookkeeping maps
+   (coq/Gen/Pure_C20.v, regenerated from the repository's source on every run).  When the Go source
+   changes its meaning, a lemma here stops compiling and only C20's tie is affected. *)
 From Coq Require Import ZArith NArith Lia Bool List.
 From Coq Require Import ZifyBool ZifyN.
-From Verif Require Import Lib.Base Lib.GoInt Gen.Pure_Extracted Proofs.GenTie.
+From Verif Require Import Lib.Base Lib.GoInt Proofs.TieLib Gen.Pure_C20.
 From Verif Require Model.C20_Bookkeeping.
 Local Open Scope Z_scope.
 
@@ -44,6 +43,7 @@ Proof.
 Qed.
 
 (* the whole pruning steps of the model, as filters by the transcribed conditions *)
+
 Lemma tie_housekeep (e : N) (l : list N) : nu64 e ->
   C20_Bookkeeping.housekeep true e l =
   if attester_housekeepGuard (Z.of_N e)
